@@ -60,19 +60,35 @@ def main():
     driver = common.Driver()
     if not lean.driver_ok:
         driver.available = False
+    broken = []
     try:
         mod.run(ctx, driver)
-    except Exception:
+    except Exception as exc:
         # a crash of the harness is not a verdict about the property ...
         traceback.print_exc()
-        if not ctx.violations:
+        tb = traceback.extract_tb(exc.__traceback__)
+        repo = os.path.realpath(os.environ.get("VERIF_REPO", "/repo"))
+        # the frame the last harness frame called: library code (which may itself have been deep inside the standard library)?
+        last_h = max((i for i, f in enumerate(tb) if os.sep + "harness" + os.sep in f.filename), default=-1)
+        inner = next((f for f in tb[last_h + 1:] if os.path.realpath(f.filename).startswith(repo + os.sep)), None) if last_h + 1 < len(tb) else None
+        raised_by_library = (inner is not None and last_h + 1 < len(tb) and os.path.realpath(tb[last_h + 1].filename).startswith(repo + os.sep))
+        if raised_by_library:
+            # ... unless it is the LIBRARY that raised, on an input of one of the harness's streams, an exception the stream was
+            # not prepared for: the correspondence could not be completed, i.e. the tie is broken (never on the unchanged tree,
+            # where every stream runs to its end) - handled like every broken tie: search for a failing input, report either way
+            hframes = [f for f in tb if "/harness/" in f.filename]
+            broken.append({"kind": "correspondence-run", "detail": f"the library raised {type(exc).__name__}: {str(exc)[:300]} at {os.path.relpath(inner.filename, repo)}:{inner.lineno} "
+                           f"({inner.name}) on an input of the harness stream running at {os.path.basename(hframes[-1].filename) if hframes else '?'}:{hframes[-1].lineno if hframes else '?'} "
+                           f"({hframes[-1].name if hframes else '?'}); the stream could not be completed"})
+            ctx.notes.append("a stream of the harness was cut short by an exception raised inside the library: recorded as a broken correspondence")
+        elif not ctx.violations:
             print(f"HARNESS-ERROR property={pid}")
             return 2
-        # ... but violations it had already established (each with its own replayable input) stand: misbehaving code is
-        # exactly what makes harnesses trip
-        ctx.notes.append("the harness stopped with an exception after recording the violations reported here")
+        else:
+            # ... but violations it had already established (each with its own replayable input) stand: misbehaving code is
+            # exactly what makes harnesses trip
+            ctx.notes.append("the harness stopped with an exception after recording the violations reported here")
 
-    broken = []
     if not lean.translator_ok:
         broken.append({"kind": "translator", "detail": lean.translator_msg})
     if not lean.driver_ok:
